@@ -7,6 +7,7 @@ long xv_w;                 /* second arbitrary index; requires clauses of some c
 long xv_bw;                /* second arbitrary index into bell_regs / witness of a free bell slot */
 uint8_t xv_g_bbyte;        /* ghost constant: entry value of byte xv_keep of the bell_regs array */
 int xv_g_i3, xv_g_refs;    /* more ghost constants */
+int xv_g_b0, xv_g_b1;      /* ghost constants: bell_regs_capacity, num_bell_regs at entry */
 long xv_b;                 /* ghost index into bell_regs (xv_j of prelude.h is the index into fd_regs) */
 int xv_g_fd, xv_g_ev;      /* ghost constants: entry value of fd_regs[xv_j] */
 _Bool xv_g_bfree, xv_g_bring;   /* ghost constants: entry value of bell_regs[xv_b] */
